@@ -25,6 +25,6 @@ TxDefU == [t \in TxU |->
 
 AssetU == {"BTC", "DOGE", "XIN"}
 CapU == [a \in AssetU |-> CASE a = "BTC" -> 2500 [] a = "DOGE" -> 25000000 [] a = "XIN" -> 750000]
-\* genesis supply (7 nodes x 13439 XIN)
-GenesisU == [a \in AssetU |-> IF a = "XIN" THEN 94073 ELSE 0]
+\* genesis supply (7 nodes x 13439 XIN + genesis custodian 700)
+GenesisU == [a \in AssetU |-> IF a = "XIN" THEN 94773 ELSE 0]
 =============================================================================
